@@ -265,8 +265,10 @@ class World:
                         _mark_goal(conj)
                         ex.oblige("ensures[%d.%d] %s" % (i, j, _short(conj)), ex.truth(ex.eval(conj)), kind="post")
                 self.frame_check(ex, c, f, snap)
-                if not stats.get("probed") and ex.sat_now():
-                    stats["probed"] = True
+                # vacuity probe: "this normal path is infeasible" must NOT be provable for at least one
+                # normal path of the function (infeasible paths the pruning solver could not see are fine)
+                if stats.get("probes", 0) < 3:
+                    stats["probes"] = stats.get("probes", 0) + 1
                     ex.oblige("vacuity probe: path condition of a normal path is satisfiable", False, kind="probe")
             else:
                 stats["exceptional"] += 1
